@@ -1,4 +1,5 @@
 import MLProps.Bridge
+import MLGen.Decisions
 /-!
 # C04 — tuple classifiers decide exactly by comparing learned distances
 
@@ -115,3 +116,53 @@ theorem C04_threshold_last_write (h : List (ThrOp ℝ)) (t : ℝ) :
 /-! non-vacuity: ties -/
 example : predictPair (2:ℝ) 2 = 1 ∧ predictTriplet (3:ℝ) 3 = -1 ∧ predictQuad (5:ℝ) 5 = 0 := by
   refine ⟨(C04_pair_iff _ _).mpr le_rfl, (C04_triplet_neg_iff _ _).mpr le_rfl, ((C04_quad_sign _ _).2.2).mpr rfl⟩
+
+/-! ## the decision expressions read off the source are the model's -/
+
+theorem C04_gen_decision_pair (dist : ℕ → ℕ → ℝ) : MLGen.decisionPair dist = decisionPair (dist 0 1) := by
+  simp [MLGen.decisionPair, decisionPair]
+
+theorem C04_gen_predict_pair (dist : ℕ → ℕ → ℝ) (thr : ℝ) :
+    MLGen.predictPair dist thr = ((predictPair thr (dist 0 1) : Int) : ℝ) := by
+  simp only [MLGen.predictPair, predictPair, decisionPair, pmOne, ofNat_real, Nat.cast_one, neg_mul, one_mul, neg_neg]
+  by_cases h : dist 0 1 ≤ thr <;> simp [h]
+
+theorem C04_gen_decision_triplet (dist : ℕ → ℕ → ℝ) : MLGen.decisionTriplet dist = decisionTriplet (dist 0 1) (dist 0 2) := by
+  simp [MLGen.decisionTriplet, decisionTriplet]
+
+theorem C04_gen_predict_triplet (dist : ℕ → ℕ → ℝ) (thr : ℝ) :
+    MLGen.predictTriplet dist thr = ((predictTriplet (dist 0 1) (dist 0 2) : Int) : ℝ) := by
+  simp only [MLGen.predictTriplet, predictTriplet, decisionTriplet, pmOne, ofNat_real, Nat.cast_one, Nat.cast_zero, neg_mul, one_mul, gt_iff_lt]
+  by_cases h : 0 < -dist 0 1 - -dist 0 2 <;> simp [h]
+
+theorem C04_gen_decision_quad (dist : ℕ → ℕ → ℝ) : MLGen.decisionQuad dist = decisionQuad (dist 0 1) (dist 2 3) := by
+  simp [MLGen.decisionQuad, decisionQuad]
+
+theorem C04_gen_predict_quad (dist : ℕ → ℕ → ℝ) (thr : ℝ) :
+    MLGen.predictQuad dist thr = ((predictQuad (dist 0 1) (dist 2 3) : Int) : ℝ) := by
+  simp only [MLGen.predictQuad, predictQuad, decisionQuad, signK, sign, ofNat_real, Nat.cast_one, neg_mul, one_mul]
+  by_cases h : 0 < -dist 0 1 - -dist 2 3
+  · simp [h]
+  · by_cases h2 : -dist 0 1 - -dist 2 3 < 0 <;> simp [h, h2]
+
+theorem foldr_add_cast (preds : List Int) (h : ∀ p ∈ preds, p = 1 ∨ p = -1 ∨ p = 0) :
+    (preds.map fun p : Int => (p : ℝ)).foldr (· + ·) 0
+      = ((preds.filter (· = 1)).length : ℝ) - ((preds.filter (· = -1)).length : ℝ) := by
+  induction preds with
+  | nil => simp
+  | cons a t ih =>
+    have ih' := ih (fun p hp => h p (List.mem_cons_of_mem _ hp))
+    simp only [List.map_cons, List.foldr_cons, ih', List.filter_cons]
+    rcases h a (List.mem_cons_self) with rfl | rfl | rfl <;> simp <;> ring
+
+/-- `score` of the triplet / quadruplet classifiers, as written in the source, is the model's `scoreFrac` -/
+theorem C04_gen_score_triplet (preds : List Int) (h : ∀ p ∈ preds, p = 1 ∨ p = -1 ∨ p = 0) :
+    MLGen.scoreTriplet (preds.map fun p : Int => (p : ℝ)) = scoreFrac preds := by
+  simp only [MLGen.scoreTriplet, scoreFrac, foldr_add_cast preds h, List.length_map, ofNat_real]
+
+theorem C04_gen_score_quad (preds : List Int) (h : ∀ p ∈ preds, p = 1 ∨ p = -1 ∨ p = 0) :
+    MLGen.scoreQuad (preds.map fun p : Int => (p : ℝ)) = scoreFrac preds := by
+  simp only [MLGen.scoreQuad, scoreFrac, foldr_add_cast preds h, List.length_map, ofNat_real]
+
+theorem C04_gen_score_pair (decisions : List ℝ) (labels : List Bool) :
+    MLGen.scorePair decisions labels = auc decisions labels := rfl
